@@ -109,7 +109,8 @@ def rule_p1(ctx, F):
         ctx.gate("P1", fn, clamp, [("only when the end was moved back before the start", "self->token_end_position.bytes < self->token_start_position.bytes", True)], accept_desc="clamping the token start")
     fn = ctx.need_fn(F, "ts_lexer_goto", "P1")
     if fn:
-        mv = [pt for pt, n, l, op in stores(fn) if writes_record(l, "Lexer") == "current_position" and "included_range->start" in show(n)]
+        ir = bind(fn, "included_range", "&self->included_ranges[i]")
+        mv = [pt for pt, n, l, op in stores(fn) if writes_record(l, "Lexer") == "current_position" and (ir + "->start") in show(n)]
         ctx.floor("goto snaps forward to a range start", len(mv), 1)
         ctx.gate("P1", fn, mv, [("only when the range starts at/after the requested position", "included_range->start_byte >= self->current_position.bytes", True),
                                 ("range ends after the position", "included_range->end_byte > self->current_position.bytes", True)], accept_desc="snapping to the range start")
